@@ -158,6 +158,7 @@ class Node:
         self.tomb_seq = 0
         self.supervised = set()        # containers seen under running/
         self.counters = {}
+        self.midsync_tombs = []        # tombstones the monitor executed inside a synchronisation of the manager
         self.start_manager()
         self.start_monitor()
 
@@ -407,6 +408,27 @@ class Node:
             owner, origin = self.tomb_owner.get((tid, stamp), (None, None))
             out.append((tid, stamp, nth, res, owner, before.get(tid),
                         origin))
+        return out
+
+    def arm_midsync_monitor(self, k):
+        """The node monitor is a process of its own: it gets the CPU right before the k-th file-system look of the
+        manager's next synchronisation and runs its real loop until nothing is pending (k = 0: disarm)."""
+        fakes.arm_midsync_actor(k, self._midsync_monitor if k else None)
+
+    def _midsync_monitor(self):
+        before = {n: self.running_target(n) for n in os.listdir(self.running_dir)}
+        done = len(fakes.tomb_log())
+        try:
+            self.monitor.run()
+        except fakes.MonitorIdle:
+            pass
+        self._count('midsync_monitor_runs')
+        for tid, stamp, nth, res in fakes.tomb_log()[done:]:
+            owner, origin = self.tomb_owner.get((tid, stamp), (None, None))
+            self.midsync_tombs.append((tid, stamp, nth, res, owner, before.get(tid), origin))
+
+    def take_midsync_tombs(self):
+        out, self.midsync_tombs = self.midsync_tombs, []
         return out
 
     # -- "cleanup service" ------------------------------------------------
